@@ -330,17 +330,26 @@ func c05Check(cs c05Case) core.Outcome {
 	if err != nil {
 		return fail("engine:ledger-text-does-not-parse", "naive text does not parse: %v\n%q", err, raw)
 	}
-	var got string
+	var got, lateDiffers string
 	printIt := func() (string, error) {
 		if strings.HasPrefix(cs.Kind, "path") {
-			var buf bytes.Buffer
+			var buf, late bytes.Buffer
 			err := decorator.NewRestorerWithImports("example.com/p", simple.New(map[string]string{"a.b/x": "x"})).Fprint(&buf, file)
+			lerr := lateRestorer(decorator.NewRestorerWithImports("example.com/p", simple.New(map[string]string{"a.b/x": "x"}))).Fprint(&late, file)
+			if err == nil && (lerr != nil || late.String() != buf.String()) {
+				lateDiffers = fmt.Sprintf("the print depends on the file's position in the restorer's FileSet (late error: %v)\n%s", lerr, diffDesc(buf.String(), late.String()))
+			}
 			return buf.String(), err
 		}
-		return printFile(file)
+		out, err, differs := printFileBoth(file)
+		lateDiffers = differs
+		return out, err
 	}
 	if p := guard(func() { got, err = printIt() }); p != "" {
 		return fail("panic", "print panicked: %s", p)
+	}
+	if lateDiffers != "" {
+		return fail("print-depends-on-fileset-position:"+cs.Kind, "%s", lateDiffers)
 	}
 	if err != nil {
 		return fail("print-error", "%v", err)
